@@ -39,7 +39,15 @@ def run(prop, tier, seed, ctx):
                    overrides={"MaxStmts": "3" if tier == "quick" else "4"})
     tlc.require_ok(ares, "TypeAlias")
     ctx.add_tlc(ares, "list histories (concat / append) reference semantics")
-    uniq = {json.dumps(r["hist"]): r for r in ares.records}
+    # ... plus deep random histories (tlc -simulate): eight statements
+    num = 150 if tier == "quick" else 4000
+    sres = tlc.run("TypeAlias", "MC_TypeAlias.cfg", workers=4, timeout=600, overrides={"MaxStmts": "8"},
+                   simulate="num=%d" % num, extra=["-depth", "10", "-seed", str(1000 + seed)])
+    tlc.require_ok(sres, "simulation TypeAlias")
+    ctx.add_tlc(sres, "simulation (%d list histories of 8 statements)" % (4 * num))
+    if len(sres.records) < num:
+        raise MachineryError("simulation exported only %d histories" % len(sres.records))
+    uniq = {json.dumps(r["hist"]): r for r in list(ares.records) + list(sres.records)}
     acases = list(enumerate(uniq.values()))
     amis = shard_map("bind.typeops", "alias_chunk", acases)
     ctx.cov["replayed_cases"] += len(acases)
